@@ -28,7 +28,12 @@ def trees(thorough):
     t3 = list(M1.enum_trees(3, 2, max_refined_per_level={1: 2})) + list(M1.enum_trees(3, 3, max_refined_per_level={1: 1, 2: 1}))
     pick2 = t2 if thorough else [t2[0], t2[1], t2[5], t2[15], t2[20], t2[40]]
     pick3 = (t3[::3] if thorough else [t3[0], t3[1], t3[9], t3[30], t3[45]])
-    for t in pick2 + pick3:
+    import itertools as _it
+
+    # uniformly fine meshes (64 and 512 cells): windows that are many cells wide and tall
+    fine2 = M1.Tree(2, 3, [(l, c) for l in (1, 2) for c in _it.product(range(2**l), repeat=2)])
+    fine3 = M1.Tree(3, 3, [(l, c) for l in (1, 2) for c in _it.product(range(2**l), repeat=3)])
+    for t in pick2 + pick3 + [fine2, fine3]:
         out.append((t.describe(), []))
     # meshes with holes: remove one or two leaves
     for t in (pick2[1], pick3[1]):
@@ -64,6 +69,11 @@ def cases(thorough):
                 yield dict(base, block="B", dx=w, resolution=4, direction="z", origin=o)
         for (wx, wy) in [(1 / 8, 1 / 2), (1.0, 1 / 4), (1 / 16, 1 / 8)]:
             yield dict(base, block="B", dx=wx, dy=wy, resolution={"x": 3, "y": 5}, direction="z", origin=origins[0])
+        # tall and wide windows, dy given explicitly (and dy equal to dx given explicitly)
+        for (wx, wy) in [(0.3, 0.9), (0.2, 0.7), (0.9, 0.3), (0.4, 0.4)]:
+            yield dict(base, block="B", dx=wx, dy=wy, resolution={"x": 4, "y": 12} if wy > wx else 4, direction="z", origin=origins[0])
+            if ndim == 3:
+                yield dict(base, block="B", dx=wx, dy=wy, resolution=6, direction=["normal", [1, -1, 2]], origin=origins[0])
         for wu, pu, box in [("m", "cm", 1.0), ("cm", "m", 4.0), ("au", "cm", 3.0e13)]:
             for w in (1 / 4, 1.0):
                 yield dict(base, block="B", dx=w, resolution=3, direction="z", origin=origins[0], win_unit=wu, pos_unit=pu, box=box)
